@@ -281,6 +281,16 @@ enum Family {
     /// the 2 closest pairs / the ceil(m/2) closest pairs at the Spread values times 2^-40 (tiny), the others ordinary
     MixedTiny2,
     MixedTinyHalf,
+    /// the bottom of the f32 range: (8 * Spread integer + 1) times the smallest subnormal 2^-149 - all odd
+    /// multiples, congruent 1 mod 8, so that the means of two parts taken up to three levels deep are integers
+    /// (exactly representable); halving such a value alone is not exact
+    Subnormal,
+    /// the top of the f32 range: the Spread values scaled so that the largest lies in [2^127, 2^128); the
+    /// sum of two large values overflows although their mean is finite
+    Top,
+    /// the Spread values, but the first two ranks >= 1 whose pairs share an input get the SAME value:
+    /// two inputs exactly equidistant from a third while the closest pair is unique
+    EqualPair,
 }
 
 impl Family {
@@ -299,11 +309,20 @@ impl Family {
             Family::Huge60 => "scaled-2^60",
             Family::MixedTiny2 => "two-closest-tiny",
             Family::MixedTinyHalf => "closest-half-tiny",
+            Family::Subnormal => "subnormal",
+            Family::Top => "top-of-range",
+            Family::EqualPair => "two-equal",
         }
     }
     fn scale(self, m: usize) -> f64 {
         match self {
-            Family::Spread | Family::InfTop | Family::NegOne | Family::NegHalf | Family::NegAll => (1u64 << (m + 6)) as f64,
+            Family::Spread | Family::InfTop | Family::NegOne | Family::NegHalf | Family::NegAll | Family::EqualPair => (1u64 << (m + 6)) as f64,
+            Family::Subnormal => 2f64.powi(149),
+            Family::Top => {
+                let top = if m == 0 { 1 } else { base_int(Family::Spread, m - 1, m) };
+                let bits = 64 - top.leading_zeros() as i32;
+                2f64.powi(bits - 128)
+            }
             Family::Tiny30 => (1u64 << (m + 6)) as f64 * 2f64.powi(30),
             Family::Tiny60 => (1u64 << (m + 6)) as f64 * 2f64.powi(60),
             Family::Tiny100 => (1u64 << (m + 6)) as f64 * 2f64.powi(100),
@@ -349,7 +368,8 @@ fn negative_offset(k: usize, m: usize) -> u64 {
 
 fn base_int(fam: Family, rank: usize, m: usize) -> u64 {
     match fam {
-        Family::Spread | Family::InfTop | Family::NegOne | Family::NegHalf | Family::NegAll | Family::Tiny30 | Family::Tiny60 | Family::Tiny100 | Family::Huge60 => (((rank as u64) + 1) << m) | (1u64 << rank),
+        Family::Spread | Family::InfTop | Family::NegOne | Family::NegHalf | Family::NegAll | Family::Tiny30 | Family::Tiny60 | Family::Tiny100 | Family::Huge60 | Family::Top | Family::EqualPair => (((rank as u64) + 1) << m) | (1u64 << rank),
+        Family::Subnormal => 8 * ((((rank as u64) + 1) << m) | (1u64 << rank)) + 1,
         Family::MixedTiny2 | Family::MixedTinyHalf => {
             let spread = (((rank as u64) + 1) << m) | (1u64 << rank);
             if rank < tiny_ranks(fam, m) {
@@ -383,6 +403,27 @@ impl Table {
                     inf[j][i] = true;
                 }
                 p += 1;
+            }
+        }
+        if fam == Family::EqualPair {
+            // pairs by rank; the first (r, r') in lexicographic order, 1 <= r < r', whose pairs share an input
+            let mut by_rank = vec![(0usize, 0usize); m];
+            let mut p = 0;
+            for x in 0..atoms.len() {
+                for y in x + 1..atoms.len() {
+                    by_rank[rank_of_pair[p]] = (atoms[x], atoms[y]);
+                    p += 1;
+                }
+            }
+            'find: for r in 1..m {
+                for r2 in r + 1..m {
+                    let ((a, b), (c, d)) = (by_rank[r], by_rank[r2]);
+                    if a == c || a == d || b == c || b == d {
+                        ival[c][d] = ival[a][b];
+                        ival[d][c] = ival[a][b];
+                        break 'find;
+                    }
+                }
             }
         }
         let offset = negative_offset(negatives(fam, m), m) as f64;
@@ -606,8 +647,150 @@ where
 
 struct Obs {
     cluster: Vec<Merge>,
+    /// the owned iteration, brought back to forward order; `owned_view` says which owned view was used
     into_cluster: Vec<Merge>,
+    owned_view: &'static str,
     indicies: Vec<usize>,
+    /// first disagreement between the borrowed views of the result: (site, description)
+    views: Option<(&'static str, String)>,
+    /// size_hint() of the borrowed iterator brackets the number of items left but is not exact (the
+    /// ExactSizeIterator contract asks for exactness; the property does not): recorded, not a violation
+    inexact_size_hint: bool,
+}
+
+fn merge_of(c: &hpo::stats::cluster::Cluster) -> Merge {
+    (c.lhs(), c.rhs(), c.distance().to_bits(), c.len())
+}
+
+/// Take every view of the result. The forward iteration of `cluster()` is the yardstick; `rev()`,
+/// `&linkage`, `iter()`, `nth(k)`, `last()`, `len()` / `size_hint()` after taking k items (every k) are
+/// compared with it here; the owned iteration (one of four ways, chosen by `variant`) is compared by the oracle.
+fn observe(l: Linkage<'_>, variant: usize) -> Obs {
+    let cluster: Vec<Merge> = l.cluster().map(merge_of).collect();
+    let len = cluster.len();
+    let mut views: Option<(&'static str, String)> = None;
+    let mut inexact_size_hint = false;
+    let mut note = |site: &'static str, what: String| {
+        if views.is_none() {
+            views = Some((site, what));
+        }
+    };
+    if !l.cluster().rev().map(merge_of).eq(cluster.iter().rev().copied()) {
+        note("cluster::Iter (DoubleEndedIterator)", format!("cluster().rev() yields {:?}", fmt_merges(&l.cluster().rev().map(merge_of).collect::<Vec<_>>())));
+    }
+    if !(&l).into_iter().map(merge_of).eq(cluster.iter().copied()) {
+        note("IntoIterator for &Linkage", format!("(&linkage).into_iter() yields {:?}", fmt_merges(&(&l).into_iter().map(merge_of).collect::<Vec<_>>())));
+    }
+    if !l.iter().map(merge_of).eq(cluster.iter().copied()) {
+        note("Linkage::iter", format!("iter() yields {:?}", fmt_merges(&l.iter().map(merge_of).collect::<Vec<_>>())));
+    }
+    {
+        let mut it = l.cluster();
+        for k in 0..=len {
+            let (left, hint) = (it.len(), it.size_hint());
+            if left != len - k || hint.0 > len - k || hint.1.map_or(false, |u| u < len - k) {
+                note("cluster::Iter (ExactSizeIterator)", format!("after taking {k} of {len} items: len() = {left}, size_hint() = {hint:?}"));
+                break;
+            }
+            if hint != (len - k, Some(len - k)) {
+                inexact_size_hint = true;
+            }
+            let item = it.next().map(merge_of);
+            if item != cluster.get(k).copied() {
+                note("cluster::Iter", format!("item {k} of a second forward iteration differs: {item:?}"));
+                break;
+            }
+        }
+    }
+    {
+        // from both ends alternately
+        let mut it = l.cluster();
+        let (mut lo, mut hi) = (0usize, len);
+        let mut front = true;
+        while lo < hi {
+            let item = if front { it.next() } else { it.next_back() }.map(merge_of);
+            let want = if front { cluster[lo] } else { cluster[hi - 1] };
+            if front {
+                lo += 1;
+            } else {
+                hi -= 1;
+            }
+            if item != Some(want) || it.len() != hi - lo {
+                note("cluster::Iter (DoubleEndedIterator)", format!("alternating next()/next_back(): got {item:?}, {} left, expected {want:?}, {} left", it.len(), hi - lo));
+                break;
+            }
+            front = !front;
+        }
+        if lo == hi && (it.next().is_some() || it.next_back().is_some()) {
+            note("cluster::Iter (DoubleEndedIterator)", "yields items after both ends met".to_string());
+        }
+    }
+    for k in 0..=len {
+        let item = l.cluster().nth(k).map(merge_of);
+        if item != cluster.get(k).copied() {
+            note("cluster::Iter", format!("cluster().nth({k}) = {item:?} (the merge addressed as index n+{k})"));
+            break;
+        }
+    }
+    if l.cluster().last().map(merge_of) != cluster.last().copied() {
+        note("cluster::Iter", format!("cluster().last() = {:?}", l.cluster().last().map(merge_of)));
+    }
+    if l.cluster().count() != len {
+        note("cluster::Iter", format!("cluster().count() = {}", l.cluster().count()));
+    }
+    let indicies = l.indicies();
+    // ---- the owned views (the linkage can be consumed only once)
+    let m = |c: hpo::stats::cluster::Cluster| merge_of(&c);
+    let (owned_view, into_cluster): (&'static str, Vec<Merge>) = match variant % 4 {
+        0 => {
+            let it = l.into_cluster();
+            if it.len() != len || it.size_hint().0 > len || it.size_hint().1.map_or(false, |u| u < len) {
+                note("cluster::IntoIter (ExactSizeIterator)", format!("into_cluster(): len() = {}, size_hint() = {:?} for {len} merges", it.len(), it.size_hint()));
+            }
+            ("into_cluster()", it.map(m).collect())
+        }
+        1 => {
+            let it = l.into_iter();
+            if it.len() != len || it.size_hint().0 > len || it.size_hint().1.map_or(false, |u| u < len) {
+                note("cluster::IntoIter (ExactSizeIterator)", format!("linkage.into_iter(): len() = {}, size_hint() = {:?} for {len} merges", it.len(), it.size_hint()));
+            }
+            ("linkage.into_iter() (IntoIterator for Linkage)", it.map(m).collect())
+        }
+        2 => {
+            let mut v: Vec<Merge> = l.into_cluster().rev().map(m).collect();
+            v.reverse();
+            ("into_cluster().rev(), reversed", v)
+        }
+        _ => {
+            let mut it = l.into_cluster();
+            let (mut head, mut tail) = (vec![], vec![]);
+            let mut front = true;
+            loop {
+                let before = it.len();
+                match if front { it.next() } else { it.next_back() } {
+                    Some(c) => {
+                        if it.len() + 1 != before {
+                            note("cluster::IntoIter (ExactSizeIterator)", format!("len() goes from {before} to {} when one item is taken", it.len()));
+                        }
+                        if front {
+                            head.push(m(c));
+                        } else {
+                            tail.push(m(c));
+                        }
+                    }
+                    None => break,
+                }
+                front = !front;
+                if head.len() + tail.len() > len + 2 {
+                    break;
+                }
+            }
+            tail.reverse();
+            head.extend(tail);
+            ("into_cluster() taken alternately by next() / next_back()", head)
+        }
+    };
+    Obs { cluster, into_cluster, owned_view, indicies, views, inexact_size_hint }
 }
 
 fn run_lib(ont: &Ontology, inp: &Inputs, method: Method, table: &Table, rec: &RefCell<Rec>, adaptor: Adaptor) -> Result<Obs, String> {
@@ -707,10 +890,7 @@ fn run_lib(ont: &Ontology, inp: &Inputs, method: Method, table: &Table, rec: &Re
                 link(method, a.into_iter().filter(|_| true).chain(b), &cb)
             }
         };
-        let cluster: Vec<Merge> = l.cluster().map(|c| (c.lhs(), c.rhs(), c.distance().to_bits(), c.len())).collect();
-        let indicies = l.indicies();
-        let into_cluster: Vec<Merge> = l.into_cluster().map(|c| (c.lhs(), c.rhs(), c.distance().to_bits(), c.len())).collect();
-        Obs { cluster, into_cluster, indicies }
+        observe(l, method as usize + adaptor as usize)
     })
 }
 
@@ -723,6 +903,9 @@ struct RefRun {
     merges: Vec<(usize, usize, f32, usize)>,
     /// first step at which two live pairs shared the minimal distance
     tie_at: Option<usize>,
+    /// `average` only: the first merge whose outcome depends on a mean of two finite values whose SUM overflows
+    /// f32 (the documented "mean" is finite, the sum-then-halve arithmetic gives +inf): don't-care from there on
+    overflow_from: Option<usize>,
 }
 
 fn reference(inp: &Inputs, method: Method, table: &Table) -> RefRun {
@@ -744,7 +927,7 @@ fn reference(inp: &Inputs, method: Method, table: &Table) -> RefRun {
             d[j][i] = v;
         }
     }
-    let mut out = RefRun { merges: Vec::with_capacity(n), tie_at: None };
+    let mut out = RefRun { merges: Vec::with_capacity(n), tie_at: None, overflow_from: None };
     for k in 0..n.saturating_sub(1) {
         let nodes = n + k;
         // the closest live pair, and how many live pairs are at that distance
@@ -793,7 +976,12 @@ fn reference(inp: &Inputs, method: Method, table: &Table) -> RefRun {
                         y
                     }
                 }
-                Method::Average => (x + y) / 2.0,
+                Method::Average => {
+                    if x.is_finite() && y.is_finite() && !(x + y).is_finite() && out.overflow_from.is_none() {
+                        out.overflow_from = Some(k + 1);
+                    }
+                    (x + y) / 2.0
+                }
                 // the user distance applied to the TRUE union of the merged sets and the other set
                 Method::Union => table.by_content(content[new], content[c]),
             };
@@ -885,7 +1073,10 @@ fn check(inp: &Inputs, method: Method, obs: &Obs, rf: &RefRun, rec: &Rec) -> Opt
         return fail("Linkage::into_cluster", "number of merges is not n-1", format!("n={n}: {} merges", obs.into_cluster.len()));
     }
     if obs.cluster != obs.into_cluster {
-        return fail("Linkage::into_cluster", "cluster() and into_cluster() disagree", format!("cluster() = {:?}, into_cluster() = {:?}", fmt_merges(&obs.cluster), fmt_merges(&obs.into_cluster)));
+        return fail("Linkage::into_cluster", "cluster() and into_cluster() disagree", format!("cluster() = {:?}, {} = {:?}", fmt_merges(&obs.cluster), obs.owned_view, fmt_merges(&obs.into_cluster)));
+    }
+    if let Some((vsite, what)) = &obs.views {
+        return fail(vsite, "a view of the result disagrees with the forward iteration of cluster()", format!("n={n}: cluster() = {:?}; {what}", fmt_merges(&obs.cluster)));
     }
     // ---- binary tree over the inputs
     let mut used = [0u32; MAX_NODES];
@@ -959,7 +1150,7 @@ fn check(inp: &Inputs, method: Method, obs: &Obs, rf: &RefRun, rec: &Rec) -> Opt
         return fail(site, "the distance callback receives two different overlapping sets (not two live clusters)", format!("n={n}: later calls {:?}", rec.later));
     }
     // ---- closest pair, reported distance, update rule: against the reference, up to the first tie
-    let upto = rf.tie_at.unwrap_or(n - 1);
+    let upto = rf.tie_at.unwrap_or(n - 1).min(rf.overflow_from.unwrap_or(n - 1));
     for k in 0..upto {
         let (l, r, dbits, _) = obs.cluster[k];
         let (a, b, v, _) = rf.merges[k];
@@ -1084,6 +1275,10 @@ struct Tally {
     runs: u64,
     exact: u64,
     ties: [u64; 4],
+    /// `average` runs compared only up to the first mean whose sum overflows
+    overflow: u64,
+    /// runs in which cluster().size_hint() was correct but not exact
+    inexact_hint: u64,
 }
 
 /// One clustering of the inputs under `method` with the given rank order; compares with the reference.
@@ -1116,6 +1311,9 @@ fn one(ctx: &mut Ctx, env: &Env, inp: &Inputs, rank_of_pair: &[usize], table: &T
             ctx.violation(method.site(), "panics", if new { detail(json!({"panic": p})) } else { Value::Null });
         }
         Ok(obs) => {
+            if obs.inexact_size_hint {
+                tally.inexact_hint += 1;
+            }
             if rec.calls > 1 {
                 // informational: later invocations (union asks new-set vs. every live set, itself included)
                 if method == Method::Union {
@@ -1139,6 +1337,8 @@ fn one(ctx: &mut Ctx, env: &Env, inp: &Inputs, rank_of_pair: &[usize], table: &T
                 None => {
                     if rf.tie_at.is_some() {
                         tally.ties[method as usize] += 1;
+                    } else if rf.overflow_from.is_some() {
+                        tally.overflow += 1;
                     } else {
                         tally.exact += 1;
                     }
@@ -1146,7 +1346,7 @@ fn one(ctx: &mut Ctx, env: &Env, inp: &Inputs, rank_of_pair: &[usize], table: &T
             }
             // fingerprint: method + tree topology (sequence of unordered pairs); not for runs with a
             // tie, whose result legitimately depends on the library's hash iteration order
-            if rf.tie_at.is_some() {
+            if rf.tie_at.is_some() || rf.overflow_from.is_some() {
                 return;
             }
             let mut bytes = [0u8; 1 + 2 * MAX_N];
@@ -1179,6 +1379,12 @@ fn flush(ctx: &mut Ctx, n: usize, tag: &str, special: bool, orders: u64, tally: 
     ctx.transitions(tally.runs * (4 + n as u64 - 1));
     if n >= 3 || special {
         ctx.nontrivials(tally.exact);
+    }
+    if tally.inexact_hint > 0 {
+        ctx.bump("cluster_iter_size_hint_not_exact (ExactSizeIterator contract, not part of the property)", tally.inexact_hint);
+    }
+    if tally.overflow > 0 {
+        ctx.bump(&format!("average_sum_overflow_dont_care/{tag}/n{n}"), tally.overflow);
     }
     for &m in &METHODS {
         let t = tally.ties[m as usize];
@@ -1654,10 +1860,7 @@ fn big_run_lib(ont: &Ontology, n: usize, method: Method, l: BigLayout, rec: &Ref
                 link(method, a.into_iter().filter(|_| true).chain(b), &cb)
             }
         };
-        let cluster: Vec<Merge> = l.cluster().map(|c| (c.lhs(), c.rhs(), c.distance().to_bits(), c.len())).collect();
-        let indicies = l.indicies();
-        let into_cluster: Vec<Merge> = l.into_cluster().map(|c| (c.lhs(), c.rhs(), c.distance().to_bits(), c.len())).collect();
-        Obs { cluster, into_cluster, indicies }
+        observe(l, method as usize + adaptor as usize)
     })
 }
 
@@ -1678,7 +1881,7 @@ fn big_reference(n: usize, method: Method, l: BigLayout) -> RefRun {
             d[j * nodes_max + i] = v;
         }
     }
-    let mut out = RefRun { merges: Vec::with_capacity(n), tie_at: None };
+    let mut out = RefRun { merges: Vec::with_capacity(n), tie_at: None, overflow_from: None };
     for k in 0..n - 1 {
         let nodes = n + k;
         let mut best: Option<(usize, usize, f32)> = None;
@@ -1800,7 +2003,10 @@ fn big_check(n: usize, method: Method, obs: &Obs, rf: &RefRun, rec: &BigRec) -> 
         return fail("Linkage::into_cluster", "number of merges is not n-1", format!("n={n}: {} merges", obs.into_cluster.len()));
     }
     if obs.cluster != obs.into_cluster {
-        return fail("Linkage::into_cluster", "cluster() and into_cluster() disagree", format!("n={n}"));
+        return fail("Linkage::into_cluster", "cluster() and into_cluster() disagree", format!("n={n}: owned view {}", obs.owned_view));
+    }
+    if let Some((vsite, what)) = &obs.views {
+        return fail(vsite, "a view of the result disagrees with the forward iteration of cluster()", format!("n={n}: {}", crate::model::short(what)));
     }
     // ---- binary tree over the inputs
     let nodes_max = 2 * n - 1;
@@ -1873,7 +2079,7 @@ fn big_check(n: usize, method: Method, obs: &Obs, rf: &RefRun, rec: &BigRec) -> 
         }
     }
     // ---- closest pair, reported distance, update rule: against the reference, up to the first tie
-    let upto = rf.tie_at.unwrap_or(n - 1);
+    let upto = rf.tie_at.unwrap_or(n - 1).min(rf.overflow_from.unwrap_or(n - 1));
     for k in 0..upto {
         let (l, r, dbits, _) = obs.cluster[k];
         let (a, b, v, _) = rf.merges[k];
@@ -1957,6 +2163,9 @@ fn big_space(ctx: &mut Ctx, name: &str, runs: &[(usize, Method, usize)]) {
         match got {
             Err(p) => ctx.violation(method.site(), "panics", detail(json!({"panic": p}))),
             Ok(obs) => {
+                if obs.inexact_size_hint {
+                    ctx.bump("cluster_iter_size_hint_not_exact (ExactSizeIterator contract, not part of the property)", 1);
+                }
                 match big_check(n, method, &obs, &rf, &rec) {
                     Some(f) => {
                         let first: Vec<Value> = rf.merges.iter().take(12).map(|&(a, b, v, s)| json!([a, b, fj(v), s])).collect();
@@ -2014,6 +2223,9 @@ pub fn run(ctx: &mut Ctx) {
         "the magnitude of the distances is not restricted: tables scaled by 2^-30 .. 2^-100 (far below f32::EPSILON), by 2^60, and tables mixing tiny and ordinary distances must be clustered by exact comparison like any other".into(),
         "the number of inputs is not restricted: the many-inputs spaces cluster 255 / 256 / 257 / 300 singletons (union: 64 / 130) over a flat 310-term ontology with all pairwise distances distinct (a bijective integer formula over the pair index, scaled by 2^-17; sets at the mean over their members), checked by the same naive reference on vectors; rounding of nested means can produce equal f32 values, counted as ties as elsewhere".into(),
         "input sets may contain obsolete terms and terms that carry a replacement: the spaces named *-flagged* repeat the overlapping-inputs and related-terms spaces on an ontology decoded from bytes (format v3) in which 4 and 7 are obsolete, 6 is obsolete and replaced by 3, 5 and 7 carry replacements (2 resp. 5); clustering must neither drop nor substitute such members - the callback sees the exact union".into(),
+        "subnormal distances are legal: `average` must report the mean of the two parts exactly where it is representable (the subnormal family makes every such mean an integer multiple of 2^-149)".into(),
+        "at the top of the f32 range the documented mean of two parts is finite while the sum-then-halve arithmetic overflows: such `average` runs are don't-care from the first merge that depends on an overflowing sum (counted in extra.average_sum_overflow_dont_care)".into(),
+        "all views of the result must agree with the forward iteration of cluster(): rev(), (&linkage).into_iter(), iter(), nth(k) for every k (the merge addressed as index n+k), last(), count(), len()/size_hint() after taking k items, alternating next()/next_back(), and the owned iteration (into_cluster(), linkage.into_iter(), reversed, from both ends)".into(),
         "n = 0 and n = 1 are don't-care: executed under catch_unwind, nothing is demanded".into(),
         "ontology: Builder, build_minimal; root 1; 2,3,4,6,8,9,10,11 children of 1; 5 child of 2; 7 child of 5; the main spaces use singletons of the pairwise unrelated terms 2,3,4,6,8,9,10".into(),
     ];
@@ -2069,7 +2281,7 @@ pub fn run(ctx: &mut Ctx) {
         selfcheck_values(n_pairs(n), Family::Spread);
         selfcheck_values(n_pairs(n), Family::Linear);
         if n <= 5 {
-            for fam in [Family::Tiny30, Family::Tiny60, Family::Tiny100, Family::Huge60, Family::MixedTiny2, Family::MixedTinyHalf] {
+            for fam in [Family::Tiny30, Family::Tiny60, Family::Tiny100, Family::Huge60, Family::MixedTiny2, Family::MixedTinyHalf, Family::Subnormal, Family::Top] {
                 selfcheck_values(n_pairs(n), fam);
             }
             selfcheck_values(n_pairs(n), Family::Geometric);
@@ -2124,6 +2336,9 @@ pub fn run(ctx: &mut Ctx) {
         for &fam in fams {
             let what = match fam {
                 Family::MixedTiny2 | Family::MixedTinyHalf => format!("the {} closest of the {m} pairs at 2^-40 times their ordinary value, the others ordinary", tiny_ranks(fam, m)),
+                Family::Subnormal => "every distance an odd multiple (1 mod 8) of the smallest subnormal 2^-149, so that every mean of two parts is exactly representable while halving one value alone is not".to_string(),
+                Family::Top => "scaled so that the largest distance lies in [2^127, 2^128): min, max and the callback are exact; for `average` a mean whose f32 sum overflows is don't-care (compared up to that merge, counted in extra)".to_string(),
+                Family::EqualPair => "the first two ranks >= 1 whose pairs share an input at the same value (two inputs equidistant from a third, the closest pair unique)".to_string(),
                 _ => format!("every distance {}", fam.name()),
             };
             ctx.space(
@@ -2133,9 +2348,9 @@ pub fn run(ctx: &mut Ctx) {
             exhaustive(ctx, &env, &Inputs::flat(n), fam, &format!("{}-values", fam.name()), true, &METHODS);
         }
     };
-    scaled(ctx, 2, &[Family::Tiny30, Family::Tiny100, Family::Huge60]);
-    scaled(ctx, 3, &[Family::Tiny30, Family::Tiny60, Family::Tiny100, Family::Huge60, Family::MixedTiny2]);
-    scaled(ctx, 4, &[Family::Tiny30, Family::Tiny60, Family::Tiny100, Family::Huge60, Family::MixedTiny2, Family::MixedTinyHalf]);
+    scaled(ctx, 2, &[Family::Tiny30, Family::Tiny100, Family::Huge60, Family::Subnormal, Family::Top]);
+    scaled(ctx, 3, &[Family::Tiny30, Family::Tiny60, Family::Tiny100, Family::Huge60, Family::MixedTiny2, Family::Subnormal, Family::Top, Family::EqualPair]);
+    scaled(ctx, 4, &[Family::Tiny30, Family::Tiny60, Family::Tiny100, Family::Huge60, Family::MixedTiny2, Family::MixedTinyHalf, Family::Subnormal, Family::Top, Family::EqualPair]);
 
     // ---- how the inputs are handed in: every adaptor on every rank order for n <= 4 (all other spaces rotate
     //      through the adaptors by case number)
@@ -2330,7 +2545,7 @@ pub fn run(ctx: &mut Ctx) {
         families(ctx, 5);
         infinite(ctx, 5);
         negative(ctx, 5, &[Family::NegHalf, Family::NegAll]);
-        scaled(ctx, 5, &[Family::Tiny100, Family::MixedTinyHalf]);
+        scaled(ctx, 5, &[Family::Tiny100, Family::MixedTinyHalf, Family::Subnormal, Family::EqualPair]);
         // 5 atoms = 10 base distances: 10! rank orders each
         with_empties(ctx, 5, 1, &[2, 5, 3, 4], "one-empty-input");
         histories(ctx, &env, 8, 0, 0);
